@@ -210,7 +210,14 @@ let judge_multi (id : int) (c : sx) (files : sx) =
       let ci = int_of_sx (List.hd (args (field "ci" f))) in
       let act = atom (List.hd (args (field "act" f))) in
       let (a, b) = split_text (field "text" f) in
-      let lbl = Printf.sprintf "change %d of %d (Consume call %d): " (k + 1) (List.length fl) ci in
+      (* entry modes of the two sides, when they are not both 100644 (round 4: links, executables, submodules) *)
+      let modes = match field_opt "md" f with
+        | Some m -> (match args m with
+                     | [x; y] -> let sh v = if v = 0 then "100644" else string_of_int v in
+                         Printf.sprintf ", modes %s -> %s" (sh (int_of_sx x)) (sh (int_of_sx y))
+                     | _ -> "")
+        | None -> "" in
+      let lbl = Printf.sprintf "change %d of %d (Consume call %d%s): " (k + 1) (List.length fl) ci modes in
       Hashtbl.replace per_commit ci (1 + try Hashtbl.find per_commit ci with Not_found -> 0);
       let text_ok =
         if act <> "mod" then begin
